@@ -97,6 +97,45 @@ func checkC03(c *Ctx, r *Report) {
 	// ---- C03.event
 	c.checkEventTypestate(r, ro)
 
+	// ---- C03.reset: a pooled event must not carry data of the previous event: every field is either cleared by
+	// Reset or written by the recorder on every path before publication
+	if ev := c.logType("Event"); ev != nil && ro.Recorder != nil {
+		st := ev.Underlying().(*types.Struct)
+		pd := postDominators(ro.Recorder)
+		var getEv ssa.Instruction
+		eachInstr(ro.Recorder, func(in ssa.Instruction) {
+			if call, ok := in.(*ssa.Call); ok {
+				if s := call.Common().StaticCallee(); s != nil && s.Name() == "GetEvent" {
+					getEv = in
+				}
+			}
+		})
+		var stale []string
+		for i := 0; i < st.NumFields(); i++ {
+			fld := st.Field(i).Name()
+			written := false
+			if getEv != nil {
+				eachInstr(ro.Recorder, func(in ssa.Instruction) {
+					if s2, ok := in.(*ssa.Store); ok {
+						if fa, ok := s2.Addr.(*ssa.FieldAddr); ok && isEventPtr(fa.X.Type()) && fieldName(fa) == fld {
+							if in.Block() == getEv.Block() || pd[getEv.Block()][in.Block()] {
+								written = true
+							}
+						}
+					}
+				})
+			}
+			if !written && !c.resetClears(fld) {
+				stale = append(stale, fld)
+			}
+		}
+		if len(stale) > 0 {
+			r.Fail("C03.reset:Event", c.pos(ev.Obj().Pos()), "field(s) %v of a recycled event are neither cleared by Reset nor rewritten on every path of the recorder: a line can carry data that belongs to another event", stale)
+		} else {
+			r.OK("C03.reset:Event", "all %d Event fields are cleared by Reset or rewritten on every path before publication", st.NumFields())
+		}
+	}
+
 	// ---- C03.single-write
 	for _, nt := range ro.LeafAppenders {
 		wr := c.declaredMethod(nt, "Write")
@@ -725,6 +764,20 @@ func (c *Ctx) checkHandleRegistry(r *Report) {
 		})
 	}
 	var bad []string
+	for _, f := range c.Funcs {
+		eachInstr(f, func(in ssa.Instruction) {
+			if st, ok := in.(*ssa.Store); ok && st.Addr == ssa.Value(g) {
+				bad = append(bad, "the handle map is replaced in "+fname(f)+" at "+c.instrPos(in))
+			}
+			if call, ok := in.(*ssa.Call); ok {
+				if b, ok := call.Call.Value.(*ssa.Builtin); ok && (b.Name() == "delete" || b.Name() == "clear") && len(call.Call.Args) > 0 {
+					if ld, ok := call.Call.Args[0].(*ssa.UnOp); ok && ld.X == ssa.Value(g) {
+						bad = append(bad, "handles are removed from the map in "+fname(f)+" at "+c.instrPos(in)+": a handle obtained earlier is no longer the handle for its name (not re-bound by the next Refresh, a second GetLogger returns a different one)")
+					}
+				}
+			}
+		})
+	}
 	if len(upds) != 1 || upds[0].Parent() != gl {
 		bad = append(bad, fmt.Sprintf("%d stores into the handle map (want 1, in GetLogger)", len(upds)))
 	} else {
@@ -766,7 +819,7 @@ func (c *Ctx) checkHandleRegistry(r *Report) {
 	var stores []*ssa.Store
 	eachInstr(rf, func(in ssa.Instruction) {
 		if st, ok := in.(*ssa.Store); ok {
-			if fa, ok := st.Addr.(*ssa.FieldAddr); ok && fieldName(fa) == "logger" && recvTypeOfAddr(fa) == c.logType("LoggerWrapper") {
+			if fa, ok := st.Addr.(*ssa.FieldAddr); ok && recvTypeOfAddr(fa) == c.logType("LoggerWrapper") && c.moduleIface(fieldOfAddr(fa).Type()) {
 				stores = append(stores, st)
 			}
 		}
@@ -783,7 +836,7 @@ func (c *Ctx) checkHandleRegistry(r *Report) {
 				// looked up by the handle's own name, value stored is the look-up's value
 				kp := c.prov(lk.Index, &Frame{Fn: rf}).String()
 				vp, ok2 := st.Val.(*ssa.Extract)
-				if strings.HasSuffix(kp, ".name") && ok2 && vp.Tuple == lk && vp.Index == 0 {
+				if strings.Contains(kp, "param:") == false && strings.Count(kp, ".") >= 1 && ok2 && vp.Tuple == lk && vp.Index == 0 {
 					okB = true
 				}
 				// miss edge returns a non-nil error
